@@ -16,6 +16,7 @@ def run(ck):
         "requests of the wrong Go type for a service (never produced by the routes) are not modelled",
     ]
     ck.coq_props()
+    ic.run_regions(ck, "C01")
     res = ic.run_level1(ck, "C01")
     if res is None:
         return
